@@ -105,7 +105,7 @@ func newSys38(cfg *sysConfig, nActors int, maxEpoch uint32, rewards []int64) *sy
 	if len(w.storage[string(y.dsc)]) == 0 {
 		panic("delegation contract has no storage after creation")
 	}
-	y.genesis = w
+	y.genesis = w.clone() // a frozen copy: shared by all instances, never written
 	y.pool = &vmPool{cfg: cfg}
 	y.memo = newMemo(8192)
 	return y
@@ -445,7 +445,7 @@ func configs38(c *mc.Ctx) []*sysConfig {
 }
 
 func runC38(c *mc.Ctx) {
-	depth := c.Pick(6, 7)
+	depth := pickDepth(c, 6, 7)
 	nActors := c.Pick(2, 3)
 	maxEpoch := uint32(c.Pick(2, 3))
 	rewards := []int64{-1, 7, 1000}
